@@ -89,7 +89,7 @@ static rc::Gen<Case> gen()
         if (c.which == 0) {
             // mostly plain components so that many strings are accepted; each position may go wrong
             std::string s;
-            const int bad = *gen::weightedElement<int>({{5, -1}, {1, 0}, {1, 1}, {1, 2}, {1, 3}, {2, 4}, {2, 5}, {1, 6}});
+            const int bad = *gen::weightedElement<int>({{9, -1}, {1, 0}, {1, 1}, {1, 2}, {1, 3}, {2, 4}, {2, 5}, {1, 6}});
             for (int i = 0; i < 6; ++i) {
                 if (i == bad || bad == 6) s += *component(i < 4);
                 else if (i == 4) s += std::to_string(*gen::weightedElement<int>({{6, 0}, {1, 1}, {1, 2}}) == 0 ? *vp::range<int>(4, 255) : *vp::range<int>(0, 4));
